@@ -167,7 +167,7 @@ func init() {
 func runC09(c *Ctx) {
 	rng := c.Rng
 	n := c.N(300, 3000)
-	maxOps := c.N(60, 400)
+	maxOps := c.Bound(60, 400)
 	for i := 0; i < n; i++ {
 		u := newSigUniverse(rng)
 		init := ""
